@@ -20,6 +20,12 @@ static void part_whole(const std::vector<unsigned>& ns, const std::vector<unsign
         set_size(n, nb);
         std::vector<float> dall((size_t)n * n * nb);
         for (size_t i = 0; i < dall.size(); i++) dall[i] = 1.0f + 0.001f * (float)((i * 7919u) % 1009u) + (i % 3 == 0 ? 0.5f : 0.f);   // positive, irregular, different in every bunch
+        // "the same values, bit for bit" holds for any value: in every second case the data also holds negative, very small, very large and
+        // subnormal values (a whole-cell shift multiplies by an exact one and adds exact zeros)
+        if ((k + (int)n + mode + (int)it) % 2 == 0) for (size_t i = 0; i < dall.size(); i++) {
+            switch ((i * 31u + (unsigned)(k + (int)n)) % 7u) { case 1: dall[i] = -dall[i]; break; case 2: dall[i] *= 1e-30f; break; case 3: dall[i] *= -3e-9f; break;
+                case 4: dall[i] *= 1e30f; break; case 5: dall[i] *= 1e-40f; break; default: break; }
+        }
         auto in = mkps_shift(n, 12, 0, 0, even_filling(nb), dall.data()), out = mkps_shift(n, 12, 0, 0, even_filling(nb));
         KickMap km(in, out, (SourceMap::InterpolationType)it, false, yaxis ? KickMap::Axis::y : KickMap::Axis::x, nullptr);
         // uniform: every row displaced by k; mixed: row r displaced by k, k-1, k+1, ... (all whole, clipped to the same range);
@@ -132,7 +138,7 @@ int main(int argc, char** argv) {
     R.init(argc, argv, "C02", "C02_shift"); quiet();
     R.rule = "one evaluation = one application of the real KickMap/RotationMap; distinct = FNV of case + output grid; trivial = zero displacement / angle 0 on constant data";
     R.sample_every = 3000;
-    const bool T = R.thorough();
+    const bool T = true /* the wide lattices run in both tiers */; const bool D = R.thorough(); (void)D;
     part_whole(T ? std::vector<unsigned>{8, 9, 16, 17, 32, 33} : std::vector<unsigned>{8, 9}, T ? std::vector<unsigned>{1, 2, 3} : std::vector<unsigned>{1, 2});
     part_poly(T ? std::vector<unsigned>{12, 13, 16, 33} : std::vector<unsigned>{12, 13}, T ? 256 : 16);
     part_rot(T ? std::vector<unsigned>{12, 13, 16} : std::vector<unsigned>{12, 13}, T ? std::vector<float>{0.f, 0.05f, -0.1f, 0.2617994f, 0.7853982f, 1.5707964f} : std::vector<float>{0.f, 0.1f, -0.2617994f});
